@@ -46,6 +46,7 @@ def judge(traces, ev, label, chunk=50000):
         if done != len(part):
             raise MachineryError(f"Trace_Tokenize {label}: {done} of {len(part)} traces judged")
         ev.add_tlc(f"Trace_Tokenize[{label}#{b // chunk}]", r, f"{len(part)} recorded traces")
+        ev.add_hits(r.out)
     return fails, drifts
 
 
